@@ -57,12 +57,14 @@ Definition valid_nameb (s : string) : bool := negb (contains slash s) && negb (c
 
 (* ------------------------------------------------------------------ dependencies *)
 
-Inductive kind := KSecret | KService | KEndpoints | KPolicy | KApPolicy | KApLogConf | KDos.
+Inductive kind := KSecret | KService | KEndpoints | KPolicy | KApPolicy | KApLogConf | KDos
+                | KDosPolicy | KDosLogConf.   (* APDosPolicy / APDosLogConf, one hop behind a DosProtectedResource *)
 
 Definition kind_eqb (a b : kind) : bool :=
   match a, b with
   | KSecret, KSecret | KService, KService | KEndpoints, KEndpoints | KPolicy, KPolicy
-  | KApPolicy, KApPolicy | KApLogConf, KApLogConf | KDos, KDos => true
+  | KApPolicy, KApPolicy | KApLogConf, KApLogConf | KDos, KDos
+  | KDosPolicy, KDosPolicy | KDosLogConf, KDosLogConf => true
   | _, _ => false
   end.
 
@@ -76,6 +78,7 @@ Inductive pos :=
 | PIngDefaultBackend | PIngPathBackend
 | PVsTLS | PVsPolicy | PVsRoutePolicy | PVsrSubroutePolicy
 | PPolicySecret | PPolicyAp                     (* one hop further: Policy -> Secret / App Protect *)
+| PDosHop                                       (* one hop further: DosProtectedResource -> APDosPolicy / APDosLogConf *)
 | PVsDos | PVsRouteDos | PVsrSubrouteDos
 | PVsUpstream | PVsUpstreamBackup | PVsrUpstream | PVsrUpstreamBackup
 | PTsTLS | PTsUpstream | PTsUpstreamBackup.
@@ -89,6 +92,7 @@ Definition pos_tag (p : pos) : nat :=
   | PVsDos => 15 | PVsRouteDos => 16 | PVsrSubrouteDos => 17
   | PVsUpstream => 18 | PVsUpstreamBackup => 19 | PVsrUpstream => 20 | PVsrUpstreamBackup => 21
   | PTsTLS => 22 | PTsUpstream => 23 | PTsUpstreamBackup => 24
+  | PDosHop => 25
   end.
 
 Definition cdep := (pos * dep)%type.
@@ -181,11 +185,24 @@ Record policy := {                                         (* conf_v1.Policy *)
 
 Inductive svckind := SvcPods | SvcExternalName.
 
+Record dosprot := {                                        (* v1beta1.DosProtectedResource in appprotectdos.Configuration *)
+  d_ns : string; d_name : string;
+  d_valid : bool;                                          (* ValidateDosProtectedResource == nil (oracle) *)
+  d_policy : string;                                       (* Spec.ApDosPolicy *)
+  d_logconf : option string }.                             (* Spec.DosSecurityLog != nil -> ApDosLogConf *)
+
 Record cluster := {
   cl_policies : list policy;                               (* the policy store *)
   cl_secrets_ok : list string;                             (* keys with secretStore.GetSecret(key).Error == nil *)
-  cl_ap_ok : list dep;                                     (* (KApPolicy|KApLogConf, key) with GetAppResource err == nil *)
-  cl_services : list (string * svckind) }.                 (* the service store: key -> kind *)
+  cl_ap_ok : list dep;                                     (* (KApPolicy|KApLogConf, key) with GetAppResource err == nil;
+                                                              (KDosPolicy|KDosLogConf, key) stored and valid in
+                                                              appprotectdos.Configuration (getPolicy / getLogConf err == nil) *)
+  cl_services : list (string * svckind);                   (* the service store: key -> kind *)
+  cl_dos : list dosprot }.                                 (* Configuration.dosProtectedResource *)
+
+Definition dos_key (d : dosprot) : string := key (d_ns d) (d_name d).
+Definition lookup_dos (cl : cluster) (k : string) : option dosprot :=
+  find (fun d => String.eqb (dos_key d) k) (cl_dos cl).
 
 Definition mem (k : string) (l : list string) : bool := existsb (String.eqb k) l.
 Definition secret_ok (cl : cluster) (k : string) : bool := mem k (cl_secrets_ok cl).
@@ -273,8 +290,25 @@ Definition policy_deps (cl : cluster) (p : pos) (spec : bool) (refs : list polre
   map (fun r => (p, (KPolicy, polref_key owner r))) refs ++
   policy_hops cl spec (get_policies cl refs owner).
 
-Definition dos_dep (p : pos) (owner dos : string) : list cdep :=
-  if nonempty dos then [(p, (KDos, nsname owner dos))] else [].
+(* appprotectdos.Configuration.GetValidDosEx(owner, ref): the DosProtectedResource, and when it is stored and
+   valid its APDosPolicy, and when that is usable its APDosLogConf (each `return nil, err` stops the chain) *)
+Definition dos_hop_items (d : dosprot) : list dep :=
+  (if nonempty (d_policy d) then [(KDosPolicy, nsname (d_ns d) (d_policy d))] else []) ++
+  (match d_logconf d with
+   | Some l => if nonempty l then [(KDosLogConf, nsname (d_ns d) l)] else []
+   | None => [] end).
+
+Definition dos_hops (cl : cluster) (k : string) : list cdep :=
+  match lookup_dos cl k with
+  | Some d => if d_valid d then map (fun x => (PDosHop, x)) (take_until_fail (ap_ok cl) (dos_hop_items d)) else []
+  | None => []
+  end.
+
+Definition dos_chain (cl : cluster) (p : pos) (owner ref : string) : list cdep :=
+  (p, (KDos, nsname owner ref)) :: dos_hops cl (nsname owner ref).
+
+Definition dos_dep (cl : cluster) (p : pos) (owner dos : string) : list cdep :=
+  if nonempty dos then dos_chain cl p owner dos else [].
 
 (* the endpoints of Service [k] flow into the resource only when the Service exists and has
    pod endpoints.  Assumption (stated in the evidence): an ExternalName Service has no
@@ -292,7 +326,7 @@ Definition upstream_deps (cl : cluster) (pu pb : pos) (ns bns : string) (u : ups
    else []).
 
 Definition route_deps (cl : cluster) (pp pd : pos) (owner : string) (r : route) : list cdep :=
-  policy_deps cl pp false (rt_policies r) owner ++ dos_dep pd owner (rt_dos r).
+  policy_deps cl pp false (rt_policies r) owner ++ dos_dep cl pd owner (rt_dos r).
 
 Definition vsr_deps (e : env) (cl : cluster) (vns : string) (r : vsroute) : list cdep :=
   flat_map (route_deps cl PVsrSubroutePolicy PVsrSubrouteDos (vsr_ns r)) (vsr_subroutes r) ++
@@ -305,7 +339,7 @@ Definition consulted_vs (e : env) (cl : cluster) (v : vserver) : list cdep :=
    | Some s => if nonempty s then [(PVsTLS, (KSecret, key (vs_ns v) s))] else []
    | None => [] end) ++
   policy_deps cl PVsPolicy true (vs_policies v) (vs_ns v) ++
-  dos_dep PVsDos (vs_ns v) (vs_dos v) ++
+  dos_dep cl PVsDos (vs_ns v) (vs_dos v) ++
   flat_map (upstream_deps cl PVsUpstream PVsUpstreamBackup (vs_ns v) (vs_ns v)) (vs_upstreams v) ++
   flat_map (route_deps cl PVsRoutePolicy PVsRouteDos (vs_ns v)) (vs_routes v) ++
   flat_map (vsr_deps e cl (vs_ns v)) (vs_vsrs v).
@@ -349,7 +383,7 @@ Definition consulted_ing (e : env) (cl : cluster) (minion : bool) (i : ingress) 
          | _, _ => [] end)
       else []) ++
      (if dos_enabled e && negb minion then
-        (match i_dos i with Some v => [(PIngDos, (KDos, nsname (i_ns i) v))] | None => [] end)
+        (match i_dos i with Some v => dos_chain cl PIngDos (i_ns i) v | None => [] end)
       else [])
    else []) ++
   (match i_default i with Some s => backend_deps cl PIngDefaultBackend i s | None => [] end) ++
@@ -499,6 +533,23 @@ Definition waf_policies_for (cl : cluster) (k : kind) (ky : string) : list polic
 Definition via_policies (pols : list policy) (r : resource) : bool :=
   existsb (fun p => finds policy_checker (p_ns p) (p_name p) r) pols.
 
+(* GetDosProtectedThatReferencedDosPolicy / ...DosLogConf: every stored DosProtectedResource (valid or not) whose
+   reference is the key as it stands or the key once the resource's namespace is put in front.  AddOrUpdatePolicy /
+   DeletePolicy (and the LogConf twins) re-evaluate those resources and processAppProtectDosChanges regenerates what
+   FindResourcesForAppProtectDosProtected returns for each of them. *)
+Definition dos_ref_matches (d : dosprot) (ref ky : string) : bool :=
+  String.eqb ky ref || String.eqb ky (key (d_ns d) ref).
+
+Definition dos_referencing (cl : cluster) (k : kind) (ky : string) : list dosprot :=
+  filter (fun d => match k with
+                   | KDosPolicy => dos_ref_matches d (d_policy d) ky
+                   | KDosLogConf => match d_logconf d with Some l => dos_ref_matches d l ky | None => false end
+                   | _ => false
+                   end) (cl_dos cl).
+
+Definition via_dos (ds : list dosprot) (r : resource) : bool :=
+  existsb (fun d => finds dos_checker (d_ns d) (d_name d) r) ds.
+
 (* virtualServerRequiresEndpointsUpdate / ingressRequiresEndpointsUpdate /
    mergeableIngressRequiresEndpointsUpdate; TransportServers are always updated *)
 Definition ing_requires_update (svc : string) (i : ingress) : bool :=
@@ -533,6 +584,7 @@ Definition reaches (e : env) (cl : cluster) (k : kind) (ns name : string) (r : r
   | KApPolicy => finds (ap_checker i_ap_policy) ns name r || via_policies (waf_policies_for cl KApPolicy (key ns name)) r
   | KApLogConf => finds (ap_checker i_ap_logconf) ns name r || via_policies (waf_policies_for cl KApLogConf (key ns name)) r
   | KDos => finds dos_checker ns name r
+  | KDosPolicy | KDosLogConf => via_dos (dos_referencing cl k (key ns name)) r
   end.
 
 (* Everything the Configuration serves.  Configuration.findResourcesForResourceReference walks c.hosts
